@@ -3,7 +3,8 @@ import os, sys
 sys.path.insert(0, os.path.join(os.path.dirname(__file__), '..', 'engine'))
 from run import Q, Unit
 W = os.path.join(os.path.dirname(__file__), '..', 'wrap', 'c14.cpp')
-UNITS = [Unit('c14_int', cxxflags=['-DC14_VT=0'], src=W), Unit('c14_trk', cxxflags=['-DC14_VT=1'], src=W)]
+UNITS = [Unit('c14_int', cxxflags=['-DC14_VT=0'], src=W), Unit('c14_trk', cxxflags=['-DC14_VT=1'], src=W),
+         Unit('c14_h64', cxxflags=['-DC14_VT=0', '-DC14_H64=1'], src=W)]       # Hash functor returning uint64_t with arbitrary high bits
 UN = {0: 'c14_int', 1: 'c14_trk'}
 
 OPS = {0: 'ctor', 1: 'insert_copy', 2: 'insert_move', 3: 'index', 4: 'get', 5: 'find', 6: 'cfind', 7: 'remove', 8: 'iterate', 9: 'citerate', 10: 'dtor'}
@@ -17,10 +18,25 @@ WHAT = {0: 'constructor: empty map, no table (base case of the induction)',
 RH = {0: '_ZN3frg8hash_mapImi15vp_hash_functor12vp_allocatorE6rehashEv', 1: '_ZN3frg8hash_mapIm7tracked15vp_hash_functor12vp_allocatorE6rehashEv'}
 
 def shapes(tier):
-    """(capacity, entries before the operation)"""
+    """(capacity, entries before the operation) explored with a fully symbolic chain structure"""
     if tier == 'quick':
-        return [(0, 0), (10, 0), (10, 1), (10, 4), (10, 9), (10, 10), (20, 0), (20, 3), (20, 11)]
+        return [(0, 0), (10, 0), (10, 1), (10, 4), (10, 6), (10, 10), (20, 0), (20, 3)]
     return [(0, 0)] + [(10, m) for m in range(0, 11)] + [(20, m) for m in range(0, 12)]
+
+def growth_profiles(tier):
+    """growth 10 -> 20 (_size == _capacity == 10): bucket (hash % 10) of the 10 entries in iteration order.  The fully symbolic profile gives no verdict
+    (cadical and kissat: 2700 s each), so the chain structure is taken from this family; everything else (hash % 20 of every entry, keys, values, argument) stays symbolic."""
+    fam = [list(range(10)), [0] * 10, [9] * 10, [0, 0, 0, 0, 1, 1, 1, 2, 2, 2], [0] * 5 + [9] * 5, [0, 0, 1, 1, 2, 2, 3, 3, 4, 4], [3] * 6 + [4, 5, 6, 7], [1, 3, 3, 5, 5, 5, 7, 7, 7, 7]]
+    if tier == 'quick': return fam[:6]
+    import random
+    rnd = random.Random(14)
+    seen = {tuple(p) for p in fam}
+    while len(fam) < 64:
+        nb = rnd.choice([1, 2, 3, 4, 6, 8, 10])                      # number of non-empty buckets
+        bs = sorted(rnd.sample(range(10), nb))
+        p = sorted(bs + [rnd.choice(bs) for _ in range(10 - nb)])
+        if tuple(p) not in seen: seen.add(tuple(p)); fam.append(p)
+    return fam
 
 def bounds_for(cap, m, vt):
     """per-loop bounds (checked by unwinding assertions): rehash / destructor: inner chain loop m+1, outer bucket loop cap+1"""
@@ -29,19 +45,25 @@ def bounds_for(cap, m, vt):
     uf = [(r'^h[it]_(begin|it_next|cit_next)$', cap + 2), (r'^(_ZN3frg(?!.*6rehashEv)|h[it]_(?!dtor$))', m + 2), (r'^ir2c_memset$', 21), (r'^(?!.*6rehashEv)(?!h[it]_dtor$)', 21)]
     return us, uf
 
-def step(cap, m, op, vt, tier, fullhash=False, optional=False, prof=None, timeout=None, mem=None):
+def step(cap, m, op, vt, tier, fullhash=False, optional=False, prof=None, timeout=None, mem=None, h64=False):
     defs = {'CAP': cap, 'M': m, 'OP': op, 'VT': vt}
+    if h64: defs['H64'] = 1
     if fullhash: defs['FULLHASH'] = 1
     if prof is not None: defs['PROF'] = '{' + ','.join(str(b) for b in prof) + '}'
-    name = '%s%s.cap%d.m%d%s%s' % ('trk.' if vt else '', OPS[op], cap, m, '.hash32' if fullhash else '', ('.p' + ''.join('%x' % b for b in prof)) if prof is not None else '')
+    name = '%s%s.cap%d.m%d%s%s' % ('trk.' if vt else '', OPS[op], cap, m, '.hash32' if fullhash else '', ('.p' + ''.join('%x' % b if b < 16 else 'ghij'[b - 16] for b in prof)) if prof is not None else '') + ('.h64' if h64 else '')
     us, uf = bounds_for(cap, m, vt)
+    # measured: with a symbolic structure of >= 7 entries the walks (remove, iteration, destructor) cost 200-900 s with CBMC's pointer/bounds checks on and about a third of that without;
+    # there the explicit checks decide (poisoned free blocks and links: a wild access escapes the index view) as in C06-C08 (DESIGN 2.4)
+    heavy = prof is None and m >= 7 and op in (7, 8, 9, 10)
     b = {'capacity before the operation': cap, 'entries before the operation': m, 'keys': 'arbitrary distinct 64-bit keys', 'values': 'arbitrary 32-bit',
          'hash function': 'arbitrary function of the key' + (' (32-bit values)' if fullhash else ' (values < 20: the map only uses hash % capacity, capacity in {10,20})'),
-         'pre-state': 'ANY map satisfying the representation invariant (solver-chosen chains)', 'Value': 'tracked' if vt else 'int'}
+         'pre-state': 'ANY map satisfying the representation invariant (solver-chosen chains)', 'Value': 'tracked' if vt else 'int',
+         'CBMC standard pointer/bounds checks': 'off (explicit assertions + poisoned blocks)' if heavy else 'on'}
+    if h64: b['hash function'] = 'functor returns uint64_t: (arbitrary 32-bit high word << 32) | h with h < 20 per key; the reference bucket is (unsigned int)hash % capacity, as the library computes it everywhere'
     if prof is not None:
-        b['pre-state'] = 'bucket (hash % capacity) of the i-th entry in iteration order fixed to %s; hash high part (h or h+10), keys, values, argument key and its hash solver-chosen' % (list(prof),)
-    return Q(name, UN[vt], 'c14_step.c', 'harness', defs=defs, unwindset=us, unwind_fn=uf, inline_witness=True, witness='all',
-             timeout=timeout or 900, mem_gb=mem or 4, optional=optional, bounds=b,
+        b['pre-state'] = 'bucket (hash mod capacity) of the i-th entry in iteration order fixed to ' + str(list(prof)) + '; hash mod 20 of every entry (b or b+10), keys, values, argument key and its hash solver-chosen'
+    return Q(name, 'c14_h64' if h64 else UN[vt], 'c14_step.c', 'harness', defs=defs, unwindset=us, unwind_fn=uf, inline_witness=True, witness='all', checks='none' if heavy else 'std',
+             timeout=timeout or (3000 if heavy else 1200), mem_gb=mem or 4, optional=optional, bounds=b,
              what='inductive step: ' + WHAT[op] + ' -> invariant, reference association, results, allocator protocol' + (', value lifetimes' if vt else ''))
 
 def applicable(cap, m, op):
@@ -50,35 +72,83 @@ def applicable(cap, m, op):
     if op == 9: return m >= 1
     return True
 
+P20 = [list(range(11)), [0] * 11, [19] * 11, [0, 0, 0, 0, 1, 1, 1, 1, 2, 2, 2]]       # bucket profiles for capacity 20, 11 entries
+
 def queries(tier):
     qs = []
+    quick = tier == 'quick'
+    gp = growth_profiles(tier)
     for (cap, m) in shapes(tier):
         for op in sorted(OPS):
             if not applicable(cap, m, op): continue
-            if tier == 'quick' and op in (2, 6, 9) and (cap, m) not in ((10, 4), (10, 10), (0, 0)): continue
-            qs.append(step(cap, m, op, 0, tier))
-    # the same steps for Value = tracked on the growth / boundary shapes: copies, moves, temporaries (also listed under C16)
+            if quick and op in (2, 6, 9) and (cap, m) not in ((10, 4), (0, 0)): continue
+            if quick and (cap, m) == (10, 6) and op in (8, 10): continue
+            if (cap, m) == (10, 10) and op in (1, 2, 3):
+                # growth 10 -> 20: chain structure from the profile family (see OUTSIDE); operator[] of a PRESENT key at _size == _capacity is part of the same queries
+                fam = (gp if op == 1 else gp[:24]) if not quick else (gp if op == 1 else gp[:2] if op == 2 else [gp[0], gp[5], gp[3]])
+                for p in fam: qs.append(step(cap, m, op, 0, tier, prof=p))
+                continue
+            if quick and (cap, m) == (10, 10) and op not in (4, 5): continue
+            # capacity 20 with >= 9 symbolic entries: the walks (remove, iteration, destructor) cost 500-1600 s each under load, const iteration > 3000 s: only remove/iterate at m = 11 are kept,
+            # as optional stretch queries; the destructor there is decided on the profile family P20 below.  Destructor on >= 9 symbolic entries: stretch (mandatory twins: profile family)
+            if cap == 20 and op in (7, 8, 9, 10) and m >= 9 and not (m == 11 and op in (7, 8)): continue
+            if cap == 20 and op == 9 and m > 6: continue
+            qs.append(step(cap, m, op, 0, tier, optional=(op == 10 and m >= 9) or (cap == 20 and m >= 9 and op in (7, 8)), timeout=3600 if (m >= 9 and op in (7, 8, 9, 10)) else None))
+    if not quick:
+        # destructor on full tables: mandatory for the profile family, the symbolic-structure twins above are optional stretch queries
+        for p in gp[:16]: qs.append(step(10, 10, 10, 0, tier, prof=p))
+        for p in P20: qs.append(step(20, 11, 10, 0, tier, prof=p))
+    # Hash functor with a result wider than 32 bits (high word solver-chosen): growth 0 -> 10, growth 10 -> 20 (profile family), lookups / removal on a 20-bucket table
+    h64 = [(0, 0, 1, None), (0, 0, 3, None), (10, 10, 1, gp[0]), (10, 10, 1, gp[3]), (10, 10, 3, gp[0]), (20, 3, 4, None), (20, 3, 5, None), (20, 3, 7, None)]
+    if not quick:
+        h64 += [(10, 10, op, p) for op in (1, 2, 3) for p in gp[1:8] if not (op == 1 and p == gp[3])] + [(10, 10, 2, gp[0])]
+        h64 += [(cap, m, op, None) for (cap, m) in ((10, 0), (10, 4), (20, 0), (20, 6)) for op in (1, 3, 4, 5, 6, 7, 8)]
+    for (cap, m, op, p) in h64: qs.append(step(cap, m, op, 0, tier, prof=p, h64=True))
     qs += queries_c16(tier)
-    if tier == 'thorough':
-        for (cap, m) in [(0, 0), (10, 3), (10, 10), (20, 5)]:
+    qs.append(Q('hash.functors', 'c14_int', 'c14_step.c', 'harness_hash', defs={'M': 0, 'CAP': 0, 'OP': 0, 'VT': 0}, unwind=6, inline_witness=True, timeout=300, mem_gb=2,
+                bounds={'key': 'any 64-bit value', 'C strings': 'length <= 3, arbitrary non-zero bytes, exact-size buffers'},
+                what='hash.hpp: hash<uint64_t>, hash<int64_t>, CStringHash equal their defining formulas (pure functions of the key); CStringHash reads up to the terminator only'))
+    if not quick:
+        for (cap, m) in [(0, 0), (10, 3), (20, 5)]:
             for op in (1, 3, 4, 7):
                 qs.append(step(cap, m, op, 0, tier, fullhash=True, optional=True))
+        # stretch: growth with a fully symbolic chain structure (measured: no verdict in 2700 s; outside the claim)
+        qs.append(step(10, 10, 1, 0, tier, optional=True, timeout=3000, mem=12))
     return qs
 
 def queries_c16(tier):
     """hash_map part of C16: every chain node and bucket table allocated / deallocated exactly once with the right size, every stored value
     destroyed exactly once.  (a) the inductive steps with Value = tracked, (b) bounded histories from the constructor ending in destruction + vp_end()"""
     qs = []
-    sh = [(0, 0), (10, 2), (10, 10), (20, 3)] if tier == 'quick' else [(0, 0), (10, 0), (10, 1), (10, 5), (10, 10), (20, 0), (20, 3), (20, 11)]
+    quick = tier == 'quick'
+    gp = growth_profiles(tier)
+    sh = [(0, 0), (10, 2), (10, 10), (20, 3)] if quick else [(0, 0), (10, 0), (10, 1), (10, 5), (10, 10), (20, 0), (20, 3), (20, 11)]
     for (cap, m) in sh:
         for op in (1, 2, 3, 7, 10):
-            if applicable(cap, m, op): qs.append(step(cap, m, op, 1, tier))
-    for (k, u) in ([(2, 2), (3, 2)] if tier == 'quick' else [(2, 3), (3, 3), (4, 2)]):
-        qs.append(Q('trk.hist.k%d.u%d' % (k, u), 'c14_trk', 'c14_hist.c', 'harness', defs={'K': k, 'U': u}, unwindset=['%s.0:%d' % (RH[1], k + 3), '%s.1:11' % RH[1], 'ht_dtor.0:%d' % (k + 3), 'ht_dtor.1:11'],
-                    unwind_fn=[(r'^(_ZN3frg(?!.*6rehashEv)|h[it]_(?!dtor$))', k + 4), (r'^ir2c_memset$', 21), (r'^(?!.*6rehashEv)(?!h[it]_dtor$)', 21)],
-                    inline_witness=True, witness='all', timeout=1800, mem_gb=8, optional=(k >= 4),
-                    bounds={'operations': k, 'key universe': u, 'hash function': 'solver-chosen table over the key universe (values < 20)', 'Value': 'tracked', 'allocator': 'tracking allocator, exact-size blocks',
-                            'construction': 'default constructor or initializer-list constructor with 2 entries'},
+            if not applicable(cap, m, op): continue
+            if (cap, m) == (10, 10):
+                if op in (1, 2, 3):
+                    for p in (gp[:1] if quick else gp[:16]): qs.append(step(cap, m, op, 1, tier, prof=p))
+                elif not quick:
+                    qs.append(step(cap, m, op, 1, tier, optional=(op == 10)))
+                    if op == 10:
+                        for p in gp[:8]: qs.append(step(cap, m, op, 1, tier, prof=p))
+                continue
+            if quick and (cap, m) == (20, 3) and op == 10: continue
+            if (cap, m) == (20, 11) and op == 10:
+                for p in P20: qs.append(step(cap, m, op, 1, tier, prof=p))
+                continue
+            qs.append(step(cap, m, op, 1, tier))
+    hist = [(1, 2, 0), (1, 2, 1), (2, 2, 0)] if quick else [(1, 3, 0), (1, 3, 1), (2, 2, 0), (2, 2, 1), (2, 3, 0), (3, 2, 0), (3, 2, 1)]
+    for (k, u, ct) in hist:
+        ents = k + 2 * ct
+        qs.append(Q('trk.hist.k%d.u%d.%s' % (k, u, 'il' if ct else 'def'), 'c14_trk', 'c14_hist.c', 'harness', defs={'K': k, 'U': u, 'CTOR': ct},
+                    unwindset=['%s.0:2' % RH[1], '%s.1:11' % RH[1], 'ht_dtor.0:%d' % (ents + 1), 'ht_dtor.1:11'],
+                    unwind_fn=[(r'^(_ZN3frg(?!.*6rehashEv)|h[it]_(?!dtor$))', ents + 2), (r'^ir2c_memset$', 21), (r'^(?!.*6rehashEv)(?!h[it]_dtor$)', 21)],
+                    inline_witness=True, witness='all', timeout=3000, mem_gb=8, optional=(k >= 3), extra=['--object-bits', '10'],
+                    bounds={'operations': k, 'key universe': '%d solver-chosen distinct 64-bit keys' % u, 'hash function': 'solver-chosen table over the key universe (values < 20)', 'Value': 'tracked',
+                            'allocator': 'tracking allocator (block registry of vp_track.h over typed pre-declared blocks)',
+                            'construction': 'initializer-list constructor with 2 entries' if ct else 'default constructor'},
                     what='every history of %d operations from the constructor (insert copy/move, operator[], get, find, remove), then destruction: results equal the reference map, '
                          'no value outside its lifetime, every block released exactly once with its size, nothing alive or allocated at the end' % k))
     return qs
@@ -86,7 +156,9 @@ def queries_c16(tier):
 def validation_queries(tier):
     return [Q('script.int.validate', 'c14_int', 'c14_step.c', 'harness_script', defs={'M': 11, 'CAP': 10, 'VT': 0, 'SCRIPT': 1}),
             Q('script.trk.validate', 'c14_trk', 'c14_step.c', 'harness_script', defs={'M': 11, 'CAP': 10, 'VT': 1, 'SCRIPT': 1}),
-            Q('hist.validate', 'c14_trk', 'c14_hist.c', 'harness', defs={'K': 40, 'U': 14})]
+            Q('script.h64.validate', 'c14_h64', 'c14_step.c', 'harness_script', defs={'M': 11, 'CAP': 10, 'VT': 0, 'SCRIPT': 1, 'H64': 1}),
+            Q('hist.validate', 'c14_trk', 'c14_hist.c', 'harness', defs={'K': 40, 'U': 14}),
+            Q('hash.validate', 'c14_int', 'c14_step.c', 'harness_hash', defs={'M': 0, 'CAP': 0, 'OP': 0, 'VT': 0})]
 VALIDATE_VECTORS = 120
 LEVEL = 'model_checking'
 TECHNIQUE = ('CBMC bounded model checking of the clang-lowered code; inductive step from a solver-chosen valid pre-state (index view of bucket table + chain nodes, '
@@ -98,9 +170,19 @@ ASSUMPTIONS = [
     'symmetry reduction: the pre-state numbers the entries in iteration order (bucket ascending, chain order); sound because the library only compares node addresses for equality; keys, values, hashes and therefore chain contents stay arbitrary',
     'hash functor = arbitrary function of the key (one solver-chosen value per stored key and for the argument key); values < 20 in the main queries: the map evaluates hash % capacity only and capacity is 10 or 20 inside the bound, '
     'so the reduction removes no behaviour (thorough tier repeats selected steps with unrestricted 32-bit hash values)',
+    'Hash result type: unsigned int in the main queries; a second instantiation whose functor returns uint64_t with arbitrary high bits (queries *.h64) checks that every path buckets by (unsigned int)hash % capacity',
     'allocator never fails; the allocator stub of the step harness hands out one pre-declared chain-node block and one pre-declared table block (10 or 20 buckets) per operation, filled with poison links; '
     'deallocate(nullptr, 0) (map that never had a table) is accepted like free(NULL)',
     'insert() is only called with absent keys (documented use; the property says "insert (of absent keys)")',
+    'history harness under CBMC: before each operation _size/_capacity are asserted equal to the reference (size, 0 or 10) and rewritten as constants under a case split over the reference size '
+    '(a no-op that keeps the allocation size in rehash() concrete); blocks are typed pre-declared objects registered in the block registry of vp_track.h',
 ]
-OUTSIDE = ['maps with more than 12 entries / capacities beyond 20 (the second doubling 20 -> 40)', 'key types other than uint64_t, value types other than int and tracked',
-           'hash functors that are not functions of the key (inconsistent hashes)', 'allocation failure', 'concurrent use']
+OUTSIDE = ['growth 10 -> 20 (_size == _capacity == 10) with a FULLY symbolic chain structure: measured, no verdict (path-merged query, 1.9 M variables / 8.4 M clauses, cadical and kissat 2700 s each; '
+           'it stays in the thorough tier as an optional stretch query).  Fallback as announced in DESIGN.md section 4: the growth step (insert const&/&&, operator[] of an absent key) is decided for a family of '
+           'bucket profiles of the 10 entries (quick 6: one per bucket, all in bucket 0, all in bucket 9, "mod 3", two chains of 5, pairs; thorough 64 incl. 56 pseudo-random ones) with hash mod 20 of every entry, '
+           'all keys, all values and the argument key / hash solver-chosen; growth 0 -> 10 and all non-growing operations at _size == _capacity == 10 are decided for the fully symbolic structure',
+           'capacity 20 with 9..11 entries in a fully symbolic structure: remove / iteration / destructor (500-1600 s each under load, const iteration no verdict in 3000 s); there insert, operator[], get, find are decided '
+           'symbolically, the destructor on the profile family, remove/iterate at 11 entries as optional stretch queries',
+           'maps with more than 12 entries / capacities beyond 20 (the second doubling 20 -> 40)', 'key types other than uint64_t, value types other than int and tracked',
+           'hash functors that are not functions of the key (inconsistent hashes)', 'allocation failure', 'concurrent use',
+           'bounded histories (C16 part): at most 3 operations after the constructor, key universe <= 3, capacity stays 10 (growth is covered by the inductive steps with Value = tracked)']
